@@ -1,4 +1,5 @@
 import PgBifrost.Proofs.LedgerSimple.Main
+import PgBifrost.Gen.TrackerSrc
 import PgBifrost.Proofs.LedgerRefine
 import PgBifrost.Proofs.LedgerSpecSound
 import PgBifrost.Proofs.SysExample
@@ -332,5 +333,38 @@ theorem ledger_as_in_source :
   ⟨LedgerSrcProofs.updateSeen_eq, LedgerSrcProofs.updateWritten_eq, LedgerSrcProofs.remove_eq, LedgerSrcProofs.emit_eq⟩
 
 end wiring
+
+/-- The progress tracker's glue as written: `updateSeen` / `updateWritten` perform one ledger operation per entry,
+in order, and stop at the first error - which is the system model's `ledApply` over the mapped entries; in
+`readProgress` every receive from the seen channel goes to `updateSeen` and every receive from the written channel
+to `updateWritten`, a closed channel ends the tracker with an error, an error of the ledger is a panic; in `Start`
+the ticker arm emits progress and the default arm reads progress. -/
+theorem tracker_as_in_source :
+    (∀ l seen, PgBifrost.Gen.TrackerSrc.updateSeen l seen = PgBifrost.Sys.ledApply (some l) (seen.map PgBifrost.Sys.seenOp)) ∧
+    (∀ l ws, PgBifrost.Gen.TrackerSrc.updateWritten l ws = PgBifrost.Sys.ledApply (some l) (ws.map PgBifrost.Sys.writtenOp)) ∧
+    PgBifrost.Gen.TrackerSrc.readArms =
+      [("<-p.txnSeenChan", "error", "p.updateSeen(txnSeen)", "panic"),
+       ("<-p.txnsWritten", "error", "p.updateWritten(batchTransactions)", "panic"),
+       ("<-p.txnsWritten", "error", "p.updateWritten(batchTransactions)", "panic")] ∧
+    PgBifrost.Gen.TrackerSrc.startArms = ["<-ticker.C -> p.emitProgress", "default -> p.readProgress"] := by
+  refine ⟨?_, ?_, rfl, rfl⟩
+  · intro l seen
+    induction seen generalizing l with
+    | nil => simp [PgBifrost.Gen.TrackerSrc.updateSeen, PgBifrost.Sys.ledApply]
+    | cons s rest ih =>
+      simp only [PgBifrost.Gen.TrackerSrc.updateSeen, PgBifrost.Sys.ledApply, List.map_cons, List.foldlM_cons,
+        Option.bind_some, Option.bind_eq_bind]
+      cases h : PgBifrost.Ledger.step l (PgBifrost.Sys.seenOp s) with
+      | none => simp
+      | some l' => simpa [PgBifrost.Sys.ledApply] using ih l'
+  · intro l ws
+    induction ws generalizing l with
+    | nil => simp [PgBifrost.Gen.TrackerSrc.updateWritten, PgBifrost.Sys.ledApply]
+    | cons w rest ih =>
+      simp only [PgBifrost.Gen.TrackerSrc.updateWritten, PgBifrost.Sys.ledApply, List.map_cons, List.foldlM_cons,
+        Option.bind_some, Option.bind_eq_bind]
+      cases h : PgBifrost.Ledger.step l (PgBifrost.Sys.writtenOp w) with
+      | none => simp
+      | some l' => simpa [PgBifrost.Sys.ledApply] using ih l'
 
 end PgBifrost.Props.C01
